@@ -859,7 +859,12 @@ def run(ctx):
         if any(s == 0 for s in final.img.shape[: final.space_dim]) or final.time_num == 0:
             bump("empty-result")
             continue
-        for sig, what in trace_check(d, root, r, final, dyadic):
+        tc_ = call(trace_check, d, root, r, final, dyadic)
+        if isinstance(tc_, Raised):  # unexpected shape / type of the result: a failing input, not a harness error
+            ctx.fail(f"C02:implementation-result-unusable:{type(tc_.exc).__name__}", f"the extracted image could not be examined: {tc_.exc!r}; program: {line}",
+                     {"program": line, "root": r, "steps": toks[1:]})
+            continue
+        for sig, what in tc_:
             ctx.fail(sig, f"{what}; program: {line}", {"program": line, "root": r, "steps": toks[1:], "signature": sig})
         obox = gen_outside_box(rng, list(final.img.shape[: final.space_dim]), dyadic)
         for kind in ("voxel", "coordinate"):
